@@ -66,6 +66,19 @@ CHECKS = {
              "pointer, parenthesised declarators after a type name, elaborated enum parameters (grammar-level, not small fixes).",
         technique="bounded exhaustive program enumeration on the real tools, g++ type-identity oracle",
     ),
+    "C07": dict(
+        level="model_checking",
+        text="Exhaustive enumeration, by depth and WITHOUT redundant parentheses, of integer constant expressions over 22 "
+             "literals, 5 kinds of references and the full operator set (depth 1 over all, depth 2 over a 6-literal core; "
+             "thorough depth 2 over all / depth 3 over a core: 6.2M expressions) in four contexts (enumerator, implicit "
+             "increment, macro constant, array bound); every value interrogate stores in the database is compared with the "
+             "value printed by a g++-compiled program for the same header; unevaluated is allowed, wrong is not; a crash is "
+             "bisected to the single expression.",
+        design="4/C07",
+        note="A Python evaluator with C++ int semantics only filters out expressions with undefined/out-of-int intermediates "
+             "(and is cross-checked against g++ on every case it lets through).",
+        technique="bounded exhaustive expression enumeration on the real tool, g++ value oracle",
+    ),
     "C08": dict(
         level="model_checking",
         text="Exhaustive enumeration of macro programs: object-/function-like definitions (7 parameter signatures) with every "
@@ -158,6 +171,19 @@ CHECKS = {
         design="4/C17",
         note="Ten open known findings: textual collapse of .. across a symlinked directory (design change, not a small fix).",
         technique="bounded exhaustive enumeration of directory trees, option orders and path strings on the real binaries",
+    ),
+    "C18": dict(
+        level="model_checking",
+        text="Exhaustive value-domain sweeps on the tree's own pdtoa.cxx/pstrtod.cxx (compiled into a multithreaded sweeper): "
+             "formatter round trip over both signs x all 2046 exponents x 256 (thorough 4096) mantissa patterns and, thorough, "
+             "EVERY float32 bit pattern (4.28e9); parser over every decimal spelling with <=3 (thorough 4) integer and "
+             "fraction digits x 16 exponent spellings x suffixes against glibc strtod bit for bit, repeated under a "
+             "comma-decimal libc seam and under FTZ/DAZ; end to end: ~200k literals as default arguments and macros through "
+             "interrogate, printed text compared by a g++-compiled checker.",
+        design="4/C18",
+        note="Not all 2^64 doubles: every float32 value plus a structured lattice. No non-C locale exists in the image: the "
+             "locale is modelled at the libc seam (strtod/localeconv redirected).",
+        technique="exhaustive value-domain enumeration on the real conversion code, glibc/g++ oracle",
     ),
     "C19": dict(
         level="fault_enumeration",
